@@ -616,6 +616,37 @@ def symbolic_comprehension(I, e, frame, sub, kind, it):
       defining quantified facts (filter: membership; map: pointwise)."""
     c = I.ctx
     g = e.generators[0]
+    if I.unroll is not None and kind in ("list", "gen") and isinstance(it, ZVal) and isinstance(it.ty, TSeq) and isinstance(g.target, ast.Name) \
+            and isinstance(e.elt, ast.Name) and e.elt.id == g.target.id and g.ifs:
+        # filter over a pure sequence, unrolled WITHOUT forking on the conditions: the result is
+        # the concatenation of If(cond_i, [x_i], [])
+        length, elem = I.iter_symbolic(it)
+        ety = it.ty.elem
+        parts = []
+        n_iter = 0
+        ok = True
+        for i in range(I.unroll + 1):
+            if not c.branch(length > i):
+                break
+            if i == I.unroll:
+                from .ctx import PathEnd
+
+                c.ex.bounded_notes.add(f"{frame.name}: comprehension at line {e.lineno} unrolled {I.unroll}x")
+                raise PathEnd()
+            x = elem(z3.IntVal(i))
+            I.assign(g.target, x, sub)
+
+            def conds():
+                return z3.And([pure_truth(I, cond, sub) for cond in g.ifs])
+
+            good, ct = I.try_nofork(conds)
+            if not good:
+                ok = False
+                break
+            parts.append(z3.If(ct, z3.Unit(unwrap(ety, x)), z3.Empty(it.ty.sort())))
+        if ok:
+            t = z3.Empty(it.ty.sort()) if not parts else parts[0] if len(parts) == 1 else z3.Concat(*parts)
+            return ZVal(TSeq(ety), Cell(t))
     if I.unroll is not None:
         length, elem = I.iter_symbolic(it)
         out = []
@@ -659,8 +690,13 @@ def symbolic_comprehension(I, e, frame, sub, kind, it):
             mem = z3.Contains(res, z3.Unit(x)) == z3.And(z3.Contains(src, z3.Unit(x)), *conds)
             c.assume(z3.ForAll([x], mem))
             c.assume(z3.Length(res) <= z3.Length(src))
-            # helpful instances: emptiness
-            c.assume(z3.Implies(z3.Length(src) == 0, z3.Length(res) == 0))
+            # counting facts of a filter: everything kept <=> all satisfy; nothing kept <=> none does
+            jj = z3.Int(f"comp_j_{e.lineno}")
+            I.assign(g.target, wrap(ety, src[jj]), sub)
+            cj = z3.And([pure_truth(I, cond, sub) for cond in g.ifs] + [z3.BoolVal(True)])
+            rng = z3.And(jj >= 0, jj < z3.Length(src))
+            c.assume((z3.Length(res) == z3.Length(src)) == z3.ForAll([jj], z3.Implies(rng, cj)))
+            c.assume((z3.Length(res) == 0) == z3.ForAll([jj], z3.Implies(rng, z3.Not(cj))))
             return ZVal(TSeq(ety), Cell(res))
         if not g.ifs:
             j = z3.Int(f"comp_j_{e.lineno}")
